@@ -104,15 +104,49 @@ def gen_case(rng, backend):
         if all(r[c] is None for t in tables for r in t):
             tables[0][0][c] = dom[c][0]
     dedupe = lt == "dedupe_only"
+    for t in tables:
+        for r in t:
+            r["arr"] = rng.choice([None, [], ["u"], ["u", "v"], ["v", "w"], ["w"], ["u", "u"]])
+            r["arr2"] = rng.choice([None, [], ["p"], ["p", "q"], ["q", "p"], ["q", "r", "p"], ["r"]])
+    tables[0][0]["arr"] = ["u", "w"]
+    tables[0][0]["arr2"] = ["q", "p"]
+    rule = gen_rule(rng, dedupe)
+    rules = [gen_rule(rng, dedupe) for _ in range(rng.choice([1, 2, 2, 3, 3, 4]))]
+    if backend == "duckdb":
+        if rng.random() < 0.3:          # salting does not change which pairs a rule produces
+            rule = {"blocking_rule": rule, "salting_partitions": rng.choice([2, 3, 5])}
+        # array-exploding rules: cumulative function only (count_comparisons ignores arrays_to_explode: known
+        # finding); our plain rules never mention an array column (KF-C01-exploding-preceded stays out)
+        for k in range(len(rules)):
+            if rng.random() < 0.3:
+                w = rng.random()
+                if w < 0.35:
+                    txt = rng.choice(["l.arr = r.arr AND l.arr2 = r.arr2", "l.arr2 = r.arr2 AND l.arr = r.arr AND l.b = r.b"])
+                    rules[k] = {"blocking_rule": txt, "arrays_to_explode": rng.choice([["arr", "arr2"], ["arr2", "arr"]])}
+                elif w < 0.6:
+                    rules[k] = {"blocking_rule": "l.arr2 = r.arr2", "arrays_to_explode": ["arr2"]}
+                else:
+                    txt = rng.choice(["l.arr = r.arr", "l.arr = r.arr AND l.a = r.a", "l.arr = r.arr OR l.b = r.b"])
+                    rules[k] = {"blocking_rule": txt, "arrays_to_explode": ["arr"]}
     return {"backend": backend, "link_type": lt, "names": names, "tables": tables,
-            "rule": gen_rule(rng, dedupe), "rules": [gen_rule(rng, dedupe) for _ in range(rng.choice([1, 2, 2, 3, 3, 4]))],
-            "top_rule": gen_rule(rng, dedupe, need_key=True), "n_largest": rng.choice([1, 2, 3, 5])}
+            "rule": rule, "rules": rules,
+            "top_rule": gen_rule(rng, dedupe, need_key=True), "n_largest": rng.choice([1, 2, 3, 5]),
+            "max_rows_limit": rng.choice([None, None, 10**6, 10**4])}
+
+
+def rule_sql(r):
+    return r if isinstance(r, str) else r["blocking_rule"]
+
+
+def is_exploding(r):
+    return isinstance(r, dict) and "arrays_to_explode" in r
 
 
 def frames_of(case):
     out = []
+    arrays = case["backend"] == "duckdb" and "arr" in case["tables"][0][0]
     for rows in case["tables"]:
-        d = pd.DataFrame(rows, columns=["unique_id"] + COLS)
+        d = pd.DataFrame(rows, columns=["unique_id"] + COLS + (["arr", "arr2"] if arrays else []))
         for c in COLS:
             d[c] = d[c].astype("string")
         out.append(d)
@@ -130,10 +164,11 @@ def run_impl(case):
         api.register_table(d, name)
     tabs = list(case["names"])
     res = {}
+    kw = {} if case.get("max_rows_limit") is None else {"max_rows_limit": case["max_rows_limit"]}   # never hit
     res["count"] = count_comparisons_from_blocking_rule(table_or_tables=tabs, blocking_rule=case["rule"],
-                                                        link_type=case["link_type"], db_api=api)
+                                                        link_type=case["link_type"], db_api=api, **kw)
     res["cum"] = cumulative_comparisons_to_be_scored_from_blocking_rules_data(
-        table_or_tables=tabs, blocking_rules=list(case["rules"]), link_type=case["link_type"], db_api=api
+        table_or_tables=tabs, blocking_rules=list(case["rules"]), link_type=case["link_type"], db_api=api, **kw
     ).to_dict(orient="records")
     res["top"] = n_largest_blocks(table_or_tables=tabs, blocking_rule=case["top_rule"], link_type=case["link_type"],
                                   db_api=api, n_largest=case["n_largest"]).as_record_dict()
@@ -155,15 +190,34 @@ class Eval:
                 rows.append({"__i": len(rows), "source_dataset": name, **r})
         self.rows = rows
         self.n = len(rows)
+        for r in rows:
+            r.setdefault("arr", None)
+            r.setdefault("arr2", None)
+        if not any(r["arr"] for r in rows):
+            rows[0] = dict(rows[0], arr=["zz"])          # typing only (DuckDB types an all-NULL column as INT32)
+        if not any(r["arr2"] for r in rows):
+            rows[0] = dict(rows[0], arr2=["zz"])
         d = pd.DataFrame(rows)
         for c in COLS:
             d[c] = d[c].astype("string")
         self.con = duckdb.connect()
         self.con.register("d0", d)
         self.con.execute("create table t as select __i, source_dataset, unique_id, cast(a as varchar) a, "
-                         "cast(b as varchar) b, cast(c as varchar) c from d0")
+                         "cast(b as varchar) b, cast(c as varchar) c, cast(arr as varchar[]) arr, "
+                         "cast(arr2 as varchar[]) arr2 from d0")
 
     def matrix(self, rule):
+        if is_exploding(rule):
+            # TRUE on some pair of exploded variants (several arrays: cross product of their elements)
+            src = "t"
+            for col in rule["arrays_to_explode"]:
+                other = ", ".join(x for x in ("__i", "source_dataset", "unique_id", "a", "b", "c", "arr", "arr2") if x != col)
+                src = f"(select {other}, unnest({col}) as {col} from {src})"
+            q = (f"with u as (select * from {src}) select l.__i, r.__i, max(case when ({rule['blocking_rule']}) then 1 else 0 end) "
+                 "from u l cross join u r group by 1,2")
+            res = {(a, b): v for a, b, v in self.con.execute(q).fetchall()}
+            return [res.get((i, j), 0) for i in range(self.n) for j in range(self.n)]
+        rule = rule_sql(rule)
         q = f"select l.__i, r.__i, ({rule}) from t l cross join t r"
         res = {(a, b): v for a, b, v in self.con.execute(q).fetchall()}
         return [2 if res[(i, j)] is None else int(bool(res[(i, j)])) for i in range(self.n) for j in range(self.n)]
@@ -263,7 +317,7 @@ def build(case, res):
     cnt = res["count"]
     equi, filt = cnt["equi_join_conditions_identified"], cnt["filter_conditions_identified"]
     obl.append(("equi-join AND filter decomposition is equivalent to the rule on all pairs",
-                ev.split_agrees(case["rule"], equi, filt), f"{case['rule']} -> [{equi}] / [{filt}]"))
+                ev.split_agrees(rule_sql(case["rule"]), equi, filt), f"{case['rule']} -> [{equi}] / [{filt}]"))
     L, R, ltc = sides(case, ev, True)
     mat = ev.matrix(case["rule"])
     ks = ev.keys(equi)
@@ -370,3 +424,23 @@ def replay_witness(backend="duckdb", calls=10):
     lk = su.linker(frames, s, backend, aliases=case["names"])
     want = len(lk.inference.predict().as_record_dict())
     return any(c != want for c in counts), counts, want
+
+
+WITNESS_EXPLODE = {"link_type": "dedupe_only", "rule": {"blocking_rule": "l.arr = r.arr", "arrays_to_explode": ["arr"]},
+                   "arr_by_uid_mod_6": [["u"], ["u", "v"], ["v", "w"], None, [], ["w", "u"]], "n": 8}
+
+
+def replay_witness_explode():
+    """count_comparisons_from_blocking_rule on an exploding rule vs predict() -> (reproduced, post, predict)"""
+    import splink.comparison_library as cl
+    from splink import SettingsCreator
+    from splink.blocking_analysis import count_comparisons_from_blocking_rule
+    w = WITNESS_EXPLODE
+    d = pd.DataFrame([{"unique_id": i, "a": "x", "arr": w["arr_by_uid_mod_6"][i % 6]} for i in range(w["n"])])
+    d["a"] = d["a"].astype("string")
+    r = count_comparisons_from_blocking_rule(table_or_tables=[d], blocking_rule=w["rule"], link_type=w["link_type"],
+                                             db_api=su.make_api("duckdb"))
+    post = int(r["number_of_comparisons_to_be_scored_post_filter_conditions"])
+    s = SettingsCreator(link_type=w["link_type"], comparisons=[cl.ExactMatch("a")], blocking_rules_to_generate_predictions=[w["rule"]])
+    want = len(su.linker([d], s, "duckdb").inference.predict().as_record_dict())
+    return post != want, post, want
